@@ -320,6 +320,14 @@ def job_series(job):
             if p0[0] != 'value' or not O.eq(fr.mv_to_ref(p0[1]), {0: 1}):
                 fail({'config': cfg, 'what': 'x**0 != 1', 'x': showmv(ks, y.values())})
             yf = mv_from(alg, ks, [float(v) for v in y.values()])
+            # "norm squared is normsq": x.normsq() is x * ~x for every x, also when x mixes even and odd grades (the result then has a
+            # non-scalar part)
+            mk = tuple(rng.sample(range(2 ** alg.d), min(2 ** alg.d, rng.randint(2, 4))))
+            ym = mv_from(alg, mk, [F(rng.randint(1, 5), rng.randint(1, 3)) for _ in mk])
+            for yy in (y, ym):
+                n1, n2 = _safe(lambda: yy.normsq()), _safe(lambda: yy * ~yy)
+                if n1[0] != n2[0] or (n1[0] == 'value' and not O.eq(fr.mv_to_ref(n1[1]), fr.mv_to_ref(n2[1]))):
+                    fail({'config': cfg, 'what': 'normsq(x) != x * ~x', 'x': showmv(yy.keys(), yy.values()), 'got': str(n1)[:160], 'expected': str(n2)[:160]})
             nsq = todict(yf.normsq())
             if set(O.nz(nsq)) <= {0} and nsq.get(0, 0) > 0:
                 with warnings.catch_warnings():
